@@ -123,7 +123,7 @@ func unsupported(f string, a ...interface{}) {
 
 type Run struct {
 	// names used by the contract for locals / parameters that the source now calls differently (see rebind.go)
-	localAlias map[string]string
+	localAlias                  map[string]string
 	eng                         *Engine
 	top                         *ssa.Function
 	contract                    *FuncContract
